@@ -7,7 +7,7 @@ import subprocess
 HERE = os.path.dirname(os.path.dirname(os.path.abspath(__file__)))
 RULES = [('irc', 'C18'), ('websocket', 'C17'), ('static serves', 'C16'), ('get_ranges', 'C16'), ('check_auth', 'C20'),
          ('virtualhosts', 'C20'), ('head responses', 'C15'), ('chunked responses', 'C15'), ('streamed body', 'C15'),
-         ('1xx, 204', 'C15'), ('205 responses', 'C15'), ('handler cache', 'C01'), ('removehandler', 'C01'),
+         ('1xx, 204', 'C15'), ('205 responses', 'C15'), ('response.stream set', 'C15'), ('handler cache', 'C01'), ('removehandler', 'C01'),
          ('_success for an event', 'C04'), ('generator handler raises is still finished', 'C04/C05/C06'),
          ('cancelled event', 'C05'), ('later steps of a generator', 'C05'), ('manual tick', 'C05'),
          ('done and timeout coincide', 'C06'), ('wait() that times out', 'C06'), ('exit code', 'C08'), ('does not return while events', 'C08'),
